@@ -239,3 +239,39 @@ def gen_tokens(r, spec, p_break=0.3):
         elif kind == "empty_token":
             toks.insert(r.randint(0, len(toks)), "")
     return toks, notes
+
+
+def sibling(r, spec):
+    """A format with the same command / option / argument NAMES as ``spec`` but other flags, short
+    names and aliases: what a cache keyed on names alone would confuse."""
+    import copy
+    sp = copy.deepcopy(spec)
+    lv = sp
+    used_short = set()
+    while lv is not None:
+        for n in lv["names"]:
+            n[1] = [] if n[1] else [r.pick(["srv", "rm", "ls"])]
+        for o in lv["opts"]:
+            mode = r.weighted([(O_NO, 3), (O_REQ, 3), (O_OPT, 2), (O_MULTI, 2)])
+            flags = mode
+            o[3] = None
+            if mode != O_NO:
+                flags |= r.weighted([(O_STR, 4), (O_INT, 2), (O_FLOAT, 1), (O_BOOL, 1)])
+                if mode == O_MULTI:
+                    o[3] = r.pick([None, ["d1"]])
+            o[2] = flags
+            sc = [x for x in SHORTS if x not in used_short]
+            o[1] = r.pick(sc) if sc and r.chance(0.6) else None
+            if o[1]:
+                used_short.add(o[1])
+        # arguments: keep the ordering rules valid by only changing types and optional->required on a prefix
+        for a in lv["args"]:
+            kind = a[1] & (A_REQ | A_OPT | A_MULTI)
+            a[1] = kind | r.weighted([(A_STR, 4), (A_INT, 2), (A_FLOAT, 1), (A_BOOL, 1)])
+            if not (a[1] & A_OPT):
+                a[2] = None
+            elif a[2] is not None:
+                t = arg_type(a[1])
+                a[2] = [r.pick(VALUES[t])] if a[1] & A_MULTI else r.pick(VALUES[t])
+        lv = lv.get("base")
+    return sp
